@@ -288,9 +288,9 @@ func (t *Tracer) resolve(pck *Packet) {
 		reads := t.reads[reader]
 		for len(reads) > 0 {
 			read := reads[0]
-			receives := t.receives[read.ID()]
+			receives, ok := t.receives[read.ID()]
 
-			if slices.Contains(receives, nil) {
+			if !ok || slices.Contains(receives, nil) {
 				break
 			}
 
